@@ -55,11 +55,14 @@ pub fn run_property(prop: &str, tier: Tier, seed: u64, scale: f64) -> i32 {
             level = "fault_enumeration";
             exhaustive = Some(false);
             extra.insert("exhaustive_scope".into(), serde_json::json!("per sampled history the crash-point x loss-model (L1,L2) x single age-commit placement space is enumerated completely; the histories themselves (and L3/torn/EIO/double placements) are sampled"));
-            vec![batch(&Crash, tier, seed, 4_000, 12_000, scale)]
+            vec![
+                batch(&Crash, tier, seed, 4_000, 12_000, scale),
+                batch(&ActorScen { cap_focus: false, removal_focus: false, crash_focus: true }, tier, seed, 20_000, 500_000, scale),
+            ]
         }
         "C07" => vec![
             batch(&Docs { mode: DocsMode::Cap }, tier, seed, 100_000, 2_000_000, scale),
-            batch(&ActorScen { cap_focus: true, removal_focus: false }, tier, seed, 30_000, 600_000, scale),
+            batch(&ActorScen { cap_focus: true, removal_focus: false, crash_focus: false }, tier, seed, 30_000, 600_000, scale),
         ],
         "C09" => vec![
             batch(&Wire, tier, seed, 600_000, 10_000_000, scale),
@@ -71,7 +74,7 @@ pub fn run_property(prop: &str, tier: Tier, seed: u64, scale: f64) -> i32 {
             batch(&CoordReal, tier, seed, 6_000, 150_000, scale),
         ],
         "C12" => vec![batch(&Events { only_download: false }, tier, seed, 120_000, 2_500_000, scale)],
-        "C14" => vec![batch(&ActorScen { cap_focus: false, removal_focus: false }, tier, seed, 30_000, 800_000, scale)],
+        "C14" => vec![batch(&ActorScen { cap_focus: false, removal_focus: false, crash_focus: false }, tier, seed, 30_000, 800_000, scale)],
         "C15" => vec![
             batch(&Docs { mode: DocsMode::Policy }, tier, seed, 40_000, 1_000_000, scale),
             batch(&Decoders { mode: PureMode::Filters }, tier, seed, 20_000, 500_000, scale),
@@ -79,7 +82,7 @@ pub fn run_property(prop: &str, tier: Tier, seed: u64, scale: f64) -> i32 {
         ],
         "C16" => vec![
             batch(&Docs { mode: DocsMode::Remove }, tier, seed, 70_000, 1_500_000, scale),
-            batch(&ActorScen { cap_focus: false, removal_focus: true }, tier, seed, 20_000, 400_000, scale),
+            batch(&ActorScen { cap_focus: false, removal_focus: true, crash_focus: false }, tier, seed, 20_000, 400_000, scale),
         ],
         "C17" => vec![
             batch(&Docs { mode: DocsMode::Peers }, tier, seed, 40_000, 1_000_000, scale),
@@ -115,9 +118,10 @@ fn replay_dispatch(prop: &str, scenario: &str, plan: Value) -> Result<(Option<cr
         (_, "swarm-bigskew") => replay_plan(&Swarm { big_skew: true }, plan),
         (_, "session") => replay_plan(&Session, plan),
         (_, "query") => replay_plan(&QueryScen, plan),
-        (_, "actor") => replay_plan(&ActorScen { cap_focus: false, removal_focus: false }, plan),
-        (_, "actor-removal") => replay_plan(&ActorScen { cap_focus: false, removal_focus: true }, plan),
-        (_, "actor-capability") => replay_plan(&ActorScen { cap_focus: true, removal_focus: false }, plan),
+        (_, "actor") => replay_plan(&ActorScen { cap_focus: false, removal_focus: false, crash_focus: false }, plan),
+        (_, "actor-crash") => replay_plan(&ActorScen { cap_focus: false, removal_focus: false, crash_focus: true }, plan),
+        (_, "actor-removal") => replay_plan(&ActorScen { cap_focus: false, removal_focus: true, crash_focus: false }, plan),
+        (_, "actor-capability") => replay_plan(&ActorScen { cap_focus: true, removal_focus: false, crash_focus: false }, plan),
         (_, "coord") => replay_plan(&Coord, plan),
         (_, "coord-real") => replay_plan(&CoordReal, plan),
         (_, "crash") => replay_plan(&Crash, plan),
@@ -240,9 +244,10 @@ pub fn determinism(prop: Option<&str>, seeds: u64) -> i32 {
     if all || p == "C10" { twice(&Session, seeds, &mut bad); }
     if all || p == "C11" { twice(&Coord, seeds.min(100), &mut bad); twice(&CoordReal, seeds.min(100), &mut bad); }
     if all || p == "C12" { twice(&Events { only_download: false }, seeds, &mut bad); }
-    if all || p == "C14" { twice(&ActorScen { cap_focus: false, removal_focus: false }, seeds, &mut bad); }
-    if all || p == "C07" { twice(&ActorScen { cap_focus: true, removal_focus: false }, seeds, &mut bad); }
-    if all || p == "C16" { twice(&ActorScen { cap_focus: false, removal_focus: true }, seeds, &mut bad); }
+    if all || p == "C14" { twice(&ActorScen { cap_focus: false, removal_focus: false, crash_focus: false }, seeds, &mut bad); }
+    if all || p == "C07" { twice(&ActorScen { cap_focus: true, removal_focus: false, crash_focus: false }, seeds, &mut bad); }
+    if all || p == "C16" { twice(&ActorScen { cap_focus: false, removal_focus: true, crash_focus: false }, seeds, &mut bad); }
+    if all || p == "C06" { twice(&ActorScen { cap_focus: false, removal_focus: false, crash_focus: true }, seeds, &mut bad); }
     if all || p == "C15" { twice(&Docs { mode: DocsMode::Policy }, seeds, &mut bad); }
     if all || p == "C16" { twice(&Docs { mode: DocsMode::Remove }, seeds, &mut bad); }
     if all || p == "C17" { twice(&Docs { mode: DocsMode::Peers }, seeds, &mut bad); twice(&Docs { mode: DocsMode::PeersClockFault }, seeds, &mut bad); }
